@@ -153,3 +153,53 @@ contract(O + "MemoryLogger.flushTracebacks", props=["C16", "C14"], types={"excep
          ensures=[("every-traceback-flushed-or-kept", "len(seq(result)) + len(seq(self.tracebackMessages)) == len(old(seq(self.tracebackMessages)))", ["C16"]),
                   ("messages-untouched", "seq(self.messages) == old(seq(self.messages)) and seq(self.serializers) == old(seq(self.serializers))", ["C16"]),
                   ("monitor-invariant", MONITOR_INV, ["C16"])])
+
+contract(O + "MemoryLogger._validate_message", props=["C14", "C16"], types={"dictionary": "dict", "serializer": "Opt[_MessageSerializer]"}, returns="none",
+         assumes=[("E12 ownership (ownership_check.py): a serializer's field table never escapes, so it is not the message dictionary",
+                   "implies(serializer is not None, ref(dictionary) != ref(typed(serializer, '_MessageSerializer').fields))")],
+         modifies=["dict(dictionary)", "#CALLS", "#NTOP"],
+         loops={0: {"locals": {}, "modifies": ["#CALLS", "#NTOP"], "inv": [("dictionary-untouched-by-key-check", "dict_of(dictionary) == old(dict_of(dictionary))")]}},
+         ensures=[("accepted-means-json-encodable", "last(CALLS).tag == 'dumps' and last(CALLS).a == box(dictionary)", ["C14"])],
+         raises=[{"cls": "BaseException", "ensures": []}])
+
+contract(O + "MemoryLogger.write", props=["C16", "C14", "C13"], types={"dictionary": "dict", "serializer": "Opt[_MessageSerializer]"}, returns="none",
+         requires=[("monitor-invariant", MONITOR_INV + " and " + ML_LISTS_SEPARATE),
+],
+         assumes=[("E12 ownership (ownership_check.py): a serializer's field table never escapes, so it is not the message dictionary",
+                   "implies(serializer is not None, ref(dictionary) != ref(typed(serializer, '_MessageSerializer').fields))")],
+         modifies=["seq(self.messages)", "seq(self.serializers)", "seq(self.tracebackMessages)", "seq(self._failed_validations)", "#CALLS", "#NTOP"],
+         loops={0: {"locals": {"frame": "tuple"}, "modifies": [], "inv": []}},
+         ensures=[("message-recorded-with-its-own-serializer", "seq(self.messages) == old(seq(self.messages)) + [dictionary] and "
+                   "seq(self.serializers) == old(seq(self.serializers)) + [serializer]", ["C16"]),
+                  ("traceback-list-consistent", "seq(self.tracebackMessages) == ite(serializer is lookup_global('eliot/_traceback.py', 'TRACEBACK_MESSAGE')._serializer, "
+                   "old(seq(self.tracebackMessages)) + [dictionary], old(seq(self.tracebackMessages)))", ["C16"]),
+                  ("caller-dictionary-not-modified", "dict_of(dictionary) == old(dict_of(dictionary))", ["C13", "C14"]),
+                  ("monitor-invariant", MONITOR_INV, ["C16"])],
+         raises=[{"cls": "BaseException",
+                  "ensures": [("known finding C07-F1/F2: only rendering the validation error can raise; the pairing is still intact",
+                               MONITOR_INV + " and seq(self.messages) == old(seq(self.messages))", ["C16"])]}])
+
+contract(O + "MemoryLogger.serialize", props=["C16"], returns="list[dict]",
+         requires=[("monitor-invariant", MONITOR_INV + " and " + ML_LISTS_SEPARATE),
+                   ("every-message-has-a-serializer", "forall(lambda k: implies(0 <= k and k < len(seq(self.serializers)), isinst(seq(self.serializers)[k], '_MessageSerializer', True)), 'int')")],
+         modifies=["#CALLS", "#NTOP"],
+         aliases={"RESULT": 0},
+         loops={0: {"locals": {}, "modifies": ["#CALLS", "#NTOP", "seq(RESULT)"],
+                    "inv": [("one-copy-per-message", "len(seq(RESULT)) == _i"),
+                            ("stored-lists-untouched", "seq(self.messages) == old(seq(self.messages)) and seq(self.serializers) == old(seq(self.serializers))")]}},
+         ensures=[("one-serialized-copy-per-message", "len(seq(result)) == len(old(seq(self.messages)))", ["C16"]),
+                  ("stored-lists-untouched", "seq(self.messages) == old(seq(self.messages)) and seq(self.serializers) == old(seq(self.serializers)) and " + MONITOR_INV, ["C16"])],
+         raises=[{"cls": "BaseException", "ensures": [("monitor-invariant", MONITOR_INV + " and seq(self.messages) == old(seq(self.messages))", ["C16"])]}])
+
+contract(O + "MemoryLogger.validate", props=["C16", "C14"], returns="none",
+         requires=[("monitor-invariant", MONITOR_INV + " and " + ML_LISTS_SEPARATE),
+                   ("serializers-are-serializers-or-none", "forall(lambda k: implies(0 <= k and k < len(seq(self.serializers)), seq(self.serializers)[k] is None or isinst(seq(self.serializers)[k], '_MessageSerializer', True)), 'int')")],
+         modifies=["#CALLS", "#NTOP", "field:$dom", "field:$map"],
+         ghosts={"NV": "int"}, ghost_defaults={"NV": "0"}, after={"MemoryLogger._validate_message#0": [("NV", "NV + 1")]},
+         loops={0: {"locals": {"NV": "int"}, "modifies": ["#CALLS", "#NTOP", "field:$dom", "field:$map"],
+                    "inv": [("every-message-so-far-validated-with-its-own-serializer", "NV == _i"),
+                            ("stored-lists-untouched", "seq(self.messages) == old(seq(self.messages)) and seq(self.serializers) == old(seq(self.serializers)) and "
+                             "seq(self._failed_validations) == old(seq(self._failed_validations))")]}},
+         ensures=[("every-recorded-message-was-validated", "NV == len(old(seq(self.messages)))", ["C14"]),
+                  ("stored-lists-untouched", "seq(self.messages) == old(seq(self.messages)) and seq(self.serializers) == old(seq(self.serializers)) and " + MONITOR_INV, ["C16"])],
+         raises=[{"cls": "BaseException", "ensures": [("monitor-invariant", MONITOR_INV + " and seq(self.messages) == old(seq(self.messages)) and seq(self.serializers) == old(seq(self.serializers))", ["C16"])]}])
